@@ -12,6 +12,15 @@ BUILD = os.path.join(VERIF, "build")
 EVID = os.path.join(VERIF, "evidence")
 REPLAYS = os.path.join(VERIF, "replays")
 KNOWN = os.path.join(VERIF, "KNOWN_FINDINGS")
+WORK = os.path.join(BUILD, "work", str(os.getpid()))      # per-process scratch: MC modules, schedules, TLC meta-directories
+import atexit
+
+
+def _cleanup():
+    shutil.rmtree(WORK, ignore_errors=True)
+
+
+atexit.register(_cleanup)
 
 
 class ToolFailure(Exception):
@@ -51,7 +60,7 @@ class Run:
         self.notes = []
         os.makedirs(EVID, exist_ok=True)
         os.makedirs(REPLAYS, exist_ok=True)
-        os.makedirs(os.path.join(BUILD, "tlc"), exist_ok=True)
+        os.makedirs(os.path.join(WORK, "tlc"), exist_ok=True)
 
     def add(self, key, n):
         self.cov[key] = self.cov.get(key, 0) + n
@@ -156,8 +165,9 @@ def run_harness(exe, args, timeout=1800, stdin=None):
 
 def tlc_plain(spec, cfg, workers=8, timeout=3600, extra=(), cwd=SPEC, env=None):
     """run TLC without graph export; returns info dict"""
-    metadir = os.path.join(BUILD, "tlc", "p%d_%d" % (os.getpid(), int(time.time() * 1000) % 1000000))
-    cmd = ["timeout", str(timeout), "tlc", "-workers", str(workers), "-metadir", metadir, "-config", cfg] + list(extra) + [spec]
+    metadir = os.path.join(WORK, "tlc", "p%d_%d" % (os.getpid(), int(time.time() * 1000) % 1000000))
+    cmd = ["timeout", str(timeout), "java", "-XX:+UseSerialGC", "-Xmx6g", "-cp", tlcgraph.TLA_JAR + ":" + tlcgraph.CM_JAR, "tlc2.TLC",
+           "-workers", str(workers), "-metadir", metadir, "-config", cfg] + list(extra) + [spec]
     t0 = time.time()
     r = subprocess.run(cmd, stdout=subprocess.PIPE, stderr=subprocess.STDOUT, text=True, cwd=cwd, env=env)
     shutil.rmtree(metadir, ignore_errors=True)
